@@ -272,9 +272,31 @@ func (o *Obligation) solveStage(stage string, tier string, idx int) bool {
 	o.Ms += r.Ms
 	if r.Result == "unsat" {
 		o.Result, o.Solver, o.RawOut = "unsat", "z3-new ("+label+")", ""
+		if tier == "thorough" {
+			o.crossCheck(file)
+		}
 		return true
 	}
 	return false
+}
+
+// crossCheck (thorough tier): a second, independent solver is asked the same stage-A/B query.
+// Agreement is recorded; a `sat` answer against the first solver's `unsat` is a solver
+// disagreement and turns the obligation into an undecided one (never silently accepted).
+// unknown/timeout of the second solver is recorded and does not change the result.
+func (o *Obligation) crossCheck(file string) {
+	second := "cvc5"
+	r := runSolver(second, file, 20)
+	o.Ms += r.Ms
+	switch r.Result {
+	case "unsat":
+		o.Solver += " + " + second + " agrees"
+	case "sat":
+		o.Result = "solver-disagreement"
+		o.RawOut = "z3-new: unsat, " + second + ": sat on " + file
+	default:
+		o.Solver += " (" + second + ": " + r.Result + ")"
+	}
 }
 
 // prepare builds the SMT scripts of the obligation: one query, or a case split over the
